@@ -55,6 +55,7 @@ func (c windowCase) String() string {
 func runWindow(t *testing.T, wc windowCase, inject bool) (fs []finding, fired bool) {
 	st := bases[wc.Base]()
 	var snaps []snapshot
+	engine.GCPoint(1)
 	synctest.Test(t, func(t *testing.T) {
 		srv := newServer(t, st.objects())
 		var cls []*client
